@@ -2,6 +2,7 @@ import LyModel.Val.DrvBase
 import LyModel.Val.DrvBin
 import LyModel.Val.DrvDt
 import LyModel.Val.DrvHex
+import LyModel.Val.DrvInet
 import LyModel.Val.DrvInst
 import LyModel.Val.DrvU
 /-! driver ops of component `val`: dispatch on the type descriptor (first argument) -/
@@ -13,10 +14,11 @@ def handle (op : String) (args : List String) : String :=
   match args with
   | d :: _ =>
     if d == "t:ietf-yang-types:date-and-time" then DrvDt.handle op args
+    else if DrvInet.isDesc d then DrvInet.handle op args
     else if DrvHex.isDesc d then DrvHex.handle op args
     else if DrvBin.isDesc d then DrvBin.handle op args
     else if DrvInst.isDesc d then DrvInst.handle op args
-    else if d.startsWith "U(" || d.startsWith "pstr:" || d.startsWith "idref:" then DrvU.handle op args
+    else if d.startsWith "U(" || d.startsWith "pstr:" || d.startsWith "idref:" || d.startsWith "lref(" || d.startsWith "lrefr(" then DrvU.handle op args
     else handleBase op args
   | [] => handleBase op args
 
